@@ -36,6 +36,35 @@ type VerifBuildAttempt struct {
 	SnapGPBytes int64
 	SnapTPtrs   []int
 	NTables     int // len(b.rec.addedTables)
+	// compaction: the live cursors tPtrs[sourceLevel+2:] as run left them
+	TPtrs []int
+	// compaction: gpi, seenKey, gpOverlappedBytes, tPtrs[sourceLevel+2:] and snapTPtrs[sourceLevel+2:] as restore()
+	// leaves them when it is applied to a COPY of the compaction right after this attempt (the state the next attempt
+	// starts from; the compaction itself is not touched, so a run that forgets to restore is not repaired by the probe)
+	RestGPI       int
+	RestSeen      bool
+	RestGPBytes   int64
+	RestTPtrs     []int
+	RestSnapTPtrs []int
+}
+
+// verifRestoreProbe applies restore to a deep copy of the compaction's mutable state and reports what it leaves.
+func verifRestoreProbe(c *compaction, a *VerifBuildAttempt) {
+	cc := *c
+	cc.tPtrs = append([]int(nil), c.tPtrs...)
+	cc.snapTPtrs = append([]int(nil), c.snapTPtrs...)
+	cc.restore()
+	a.RestGPI, a.RestSeen, a.RestGPBytes = cc.gpi, cc.seenKey, cc.gpOverlappedBytes
+	n := c.sourceLevel + 2
+	if n < len(cc.tPtrs) {
+		a.RestTPtrs = append([]int(nil), cc.tPtrs[n:]...)
+	}
+	if n < len(cc.snapTPtrs) {
+		a.RestSnapTPtrs = append([]int(nil), cc.snapTPtrs[n:]...)
+	}
+	if n < len(c.tPtrs) {
+		a.TPtrs = append([]int(nil), c.tPtrs[n:]...)
+	}
 }
 
 // VerifBuild is one driven compaction.
@@ -134,6 +163,7 @@ func VerifBuilderDrive(db *DB, level, tableSize int, strict bool, maxAttempts in
 		if n := c.sourceLevel + 2; n < len(c.snapTPtrs) {
 			a.SnapTPtrs = append([]int(nil), c.snapTPtrs[n:]...)
 		}
+		verifRestoreProbe(c, &a)
 		if err != nil {
 			a.Err = err.Error()
 			a.Corrupt = errors.IsCorrupted(err)
